@@ -167,6 +167,25 @@ def large_int_curve(rng, n=None, nmax=60):
     individual values and differences are exact, but products of two differences exceed 2**63."""
     n = n or int(rng.integers(5, nmax + 1))
     x = np.cumsum(rng.integers(1, 9, n)).astype(float) * float(10 ** int(rng.integers(8, 10)))
+    kind = int(rng.integers(0, 4))
+    if kind == 3:
+        # a few levels visited again and again (a counter returning to its base): ranges whose two ends are equally high
+        y = rng.choice(rng.integers(0, 10 ** 4, int(rng.integers(2, 5))), n).astype(float)
+    elif kind == 0:
+        y = np.sort(rng.integers(0, 10 ** 4, n))[::-1].astype(float)
+    elif kind == 1:
+        y = np.round(1e4 / (np.arange(n) + 1.0))
+    else:
+        y = rng.integers(0, 10 ** 4, n).astype(float)
+    y = y * float(10 ** int(rng.integers(5, 7)))
+    return np.ascontiguousarray(np.column_stack((x, y)))
+
+
+def tall_int_curve(rng, nmax=60, nmin=5):
+    """int64-presentable curve with small integral x steps and huge integral y steps (byte counts against a block index):
+    y differences exceed 3.04e9, so their squares do not fit int64, while x-difference * y-difference products do."""
+    n = int(rng.integers(nmin, nmax + 1))
+    x = np.cumsum(rng.integers(1, 5, n)).astype(float)
     kind = int(rng.integers(0, 3))
     if kind == 0:
         y = np.sort(rng.integers(0, 10 ** 4, n))[::-1].astype(float)
@@ -174,7 +193,33 @@ def large_int_curve(rng, n=None, nmax=60):
         y = np.round(1e4 / (np.arange(n) + 1.0))
     else:
         y = rng.integers(0, 10 ** 4, n).astype(float)
-    y = y * float(10 ** int(rng.integers(5, 7)))
+    y = y * float(10 ** int(rng.integers(7, 10)))
+    return np.ascontiguousarray(np.column_stack((x, y)))
+
+
+def long_spiky(rng, nlo=4200, nhi=9000):
+    """A long curve (thousands of points) whose farthest points are narrow features: a gently bowed base line with a
+    few spikes 1..5 samples wide and a step, away from the apex of the smooth trend.  Any search that looks at a
+    subsample of a long range, or stops early, misses them."""
+    n = int(rng.integers(nlo, nhi + 1))
+    x = np.arange(n, dtype=float) + float(rng.integers(0, 3))
+    if rng.random() < 0.3:
+        x = np.cumsum(rng.integers(1, 4, n)).astype(float)
+    u = (x - x[0]) / (x[-1] - x[0])
+    amp = float(rng.uniform(5.0, 60.0))
+    y = 1000.0 - 400.0 * u + amp * 4.0 * u * (1.0 - u) * (1.0 if rng.random() < 0.5 else -1.0)
+    for _ in range(int(rng.integers(1, 4))):
+        w = int(rng.integers(1, 6))
+        c = int(rng.integers(n // 8, n - n // 8))
+        if abs(c - n // 2) < n // 10:
+            c += n // 5
+        c = min(c, n - w - 2)
+        h = amp * float(rng.uniform(3.0, 12.0)) * (1.0 if rng.random() < 0.7 else -0.5)
+        y[c:c + w] += h
+    if rng.random() < 0.5:
+        c = int(rng.integers(n // 8, n - n // 8))
+        y[c:] -= amp * float(rng.uniform(0.5, 2.0))
+    y = np.round(y - min(0.0, float(y.min())), 3)
     return np.ascontiguousarray(np.column_stack((x, y)))
 
 
